@@ -109,11 +109,30 @@ def closedCard (family : String) (p n : Nat) : Option Nat :=
 
 def handle (key : String) (ins obs : List String) : Verdict :=
   match key, ins, obs with
+  | k, ins', ["hang"] =>
+    -- the runner's observation for a case that did not return: a violation only inside the quantifier
+    let inQuantifier : Bool :=
+      match k, ins' with
+      | "C15.eval", [_, _] => true                       -- safe_eval_expression returns Some/None for every tree
+      | "C15.evals", [ns, x] =>
+        (match parseNames ns, dec x with
+          | some vars, some cs => (reference cs).any (knownNames vars)
+          | _, _ => false)
+      | "C15.export", [ns, b] =>
+        (match parseNames ns, parseArr? b with
+          | some vars, some A => isCanon A && vars.all C14.safeName && vars.eraseDups.length == vars.length
+          | _, _ => false)
+      | "C15.macro", _ => true
+      | "C15.big", _ => true
+      | _, _ => false
+    { agree := false, model := "returns", nontrivial := false, tags := ["hang", k],
+      fail := if inQuantifier then some "did-not-return" else none }
   | k, (ns :: _), ("newpanic" :: _) =>
     -- `BddVariableSet::new` panicked in the harness: legal names (distinct, no NOT_IN_VAR_NAME character) must be accepted
     match parseNames ns with
     | some vars =>
-      let legal := vars.all (fun nm => nm.all fun c => !Gen.notInVarName.contains c) && vars.eraseDups.length == vars.length
+      -- inside the quantifier of C15: distinct parser-safe names (other name sets: agreement only)
+      let legal := vars.all C14.safeName && vars.eraseDups.length == vars.length
       { agree := !legal, model := "variable set accepted", nontrivial := true, tags := ["newpanic", k],
         fail := if legal then some "BddVariableSet::new-panicked-on-legal-names" else none }
     | none => Verdict.bad "args"
@@ -125,14 +144,18 @@ def handle (key : String) (ins obs : List String) : Verdict :=
       let known := knownNames vars e
       let fail :=
         if r == "panic" then some "safe_eval_expression-panicked"
-        else if !known then firstFail [check (r == "none") "unknown-name-but-not-None", check (r2 == "panic") "eval_expression-did-not-panic-on-unknown-name"]
+        -- what `eval_expression` does on an unknown name (it panics) is not part of the statement: agreement only
+        else if !known then check (r == "none") "unknown-name-but-not-None"
         else match parseArr? r with
           | none => some "known-names-but-None"
           | some A => firstFail [
               check (numVars A == vars.length) "num_vars",
               check (ttMatches vars A e) "pointwise",
               check (isCanon A) "canonical",
-              check (r2 == r) "eval_expression-differs-from-safe_eval_expression"]
+              (match parseArr? r2 with
+                | none => some "eval_expression-failed-on-known-names"
+                | some B => firstFail [check (numVars B == vars.length) "eval_expression:num_vars",
+                    check (ttMatches vars B e) "eval_expression:pointwise"])]
       { agree := model == r ++ " " ++ r2, model, fail,
         nontrivial := (parseArr? r).any (·.size > 2),
         tags := (if known then "known" else "unknown") :: s!"n{vars.length}" :: (opTags e).eraseDups }
@@ -141,10 +164,11 @@ def handle (key : String) (ins obs : List String) : Verdict :=
     match parseNames ns, dec x with
     | some vars, some cs =>
       let model := match evalStringO vars cs with | .ok A => showArr A | _ => "panic"
+      -- the panics of `eval_expression_string` on a parse error / an unknown name are agreement only
       let fail := match reference cs with
-        | none => check (r == "panic") "unparsable-string-did-not-panic"
+        | none => none
         | some e =>
-          if !knownNames vars e then check (r == "panic") "unknown-name-did-not-panic"
+          if !knownNames vars e then none
           else match parseArr? r with
             | none => some "valid-string-panicked"
             | some A => firstFail [check (ttMatches vars A e) "pointwise", check (isCanon A) "canonical"]
@@ -162,9 +186,12 @@ def handle (key : String) (ins obs : List String) : Verdict :=
         | _ => "panic - -"
       let canonical := isCanon A
       let reduced := isReduced A
-      -- claim: structural round trip for canonical diagrams, semantic round trip for reduced ones
-      -- (children before parents, no redundant test, no duplicate); nothing for other diagrams
-      let fail := if !reduced then none else match unsexp ex with
+      -- claim (statement text): for a CANONICAL b over distinct names the evaluated export is b; the printed round
+      -- trip additionally needs parser-safe names. Non-canonical / non-post-order inputs and the shape of the
+      -- exported tree are agreement only.
+      let distinct := vars.eraseDups.length == vars.length
+      let safe := vars.all C14.safeName
+      let fail := if !canonical || !distinct then none else match unsexp ex with
         | none => some "export-panicked"
         | some e => firstFail [
             check (ttMatches vars A e) "export-denotes-another-function",
@@ -172,7 +199,7 @@ def handle (key : String) (ins obs : List String) : Verdict :=
               | none => some "eval-of-export-failed"
               | some D => firstFail [check (sameFunction n D A) "eval-of-export-differs",
                   check (!canonical || D == A) "eval-of-export-not-identical"]),
-            (match parseArr? reparsed with
+            (if !safe then none else match parseArr? reparsed with
               | none => some "reparse-of-export-failed"
               | some D => firstFail [check (sameFunction n D A) "reparsed-export-differs",
                   check (!canonical || D == A) "reparsed-export-not-identical"])]
@@ -208,7 +235,7 @@ def handle (key : String) (ins obs : List String) : Verdict :=
         | some e, _ => (evalExpr vars e).map showArr
         | none, _ => none
       let fail := match rtree, parseArr? first with
-        | none, _ => some "harness: expression text is not in the grammar"
+        | none, _ => none   -- (harness text outside the grammar: no claim, shows as a disagreement)
         | _, none => some "eval_expression_string-panicked"
         | some e, some A => firstFail [
             check (numVars A == n) "num_vars",
